@@ -227,4 +227,20 @@ theorem discard_table (disc : Bool) :
   unfold GenTxn.discard
   cases disc <;> simp
 
+/-- the translated batch-building loop of `Txn.Commit`: the batch holds one entry per pending write, in the order of the
+    pending writes, each keyed `KeyWithTs(v.Key, commitTs)` with the value, the tombstone flag and the version `commitTs` -/
+theorem commitBatch_eq {π : Type} (pkey : π → GenTxn.Key) (pval : π → List UInt8) (ptomb : π → Bool)
+    (pw : List (GenTxn.Key × π)) (ts : Nat) :
+    GenTxn.commitBatch pkey pval ptomb pw ts = pw.map fun kv => ((pkey kv.2, ts), pval kv.2, ptomb kv.2, ts) := by
+  unfold GenTxn.commitBatch
+  dsimp only
+  have h : ∀ (acc : List ((GenTxn.Key × Nat) × List UInt8 × Bool × Nat)),
+      List.foldr (fun (kv : GenTxn.Key × π) kont1 => fun (entries : List ((GenTxn.Key × Nat) × List UInt8 × Bool × Nat)) =>
+        kont1 (entries ++ [((pkey kv.2, ts), pval kv.2, ptomb kv.2, ts)])) (fun entries => entries) pw acc =
+      acc ++ pw.map fun kv => ((pkey kv.2, ts), pval kv.2, ptomb kv.2, ts) := by
+    induction pw with
+    | nil => intro acc; simp
+    | cons kv rest ih => intro acc; simp only [List.foldr_cons, List.map_cons]; rw [ih]; simp
+  simpa using h []
+
 end TxnTie
